@@ -67,6 +67,7 @@ func main() {
 				os.Exit(0)
 			}
 			if i == 0 {
+				rules.EnsureAliases(c)
 				chk(c, l)
 				for k, v := range c.Units {
 					l.Units[k] = v
